@@ -3,6 +3,8 @@ pub mod gen_osu;
 mod out;
 mod proto;
 mod registry;
+#[cfg(feature = "tracing")]
+mod trace_sink;
 mod render;
 mod rng;
 pub mod util;
@@ -11,6 +13,8 @@ use std::path::PathBuf;
 
 fn main() {
     let args: Vec<String> = std::env::args().collect();
+    #[cfg(feature = "tracing")]
+    trace_sink::install();
     if args.len() == 4 && args[1] == "render" {
         render::render_file(&args[2], &args[3]);
         return;
@@ -29,6 +33,11 @@ fn main() {
     };
     let mut out = out::Out::new(rule);
     registry::generate(prop, tier, seed, &mut out);
+    #[cfg(feature = "tracing")]
+    {
+        use std::sync::atomic::Ordering;
+        out.count_n("tracing.events_formatted", trace_sink::EVENTS.load(Ordering::Relaxed));
+    }
     out.write(&dir).expect("write outputs");
     println!("cases={} oracle_failures={}", out.cases.len(), out.oracle.len());
 }
